@@ -222,7 +222,7 @@ class IndexedCache:
         :rtype: None
         """
         # Make a shallow copy only for seen_set tracking to avoid mutating caller's dict
-        if not index or not assignment:
+        if not index or not self.keys:
             self.flat_cache.add(output)
             return
 
